@@ -202,7 +202,7 @@ func (x *g) genStreamMsg(result bool, tag string) *spec.Attr {
 	var a *spec.Attr
 	c := x.r.Intn(11)
 	viewsOK := result && (!x.o.Runtime || x.o.StreamViews)
-	if rts := x.resultTypes(); c >= 9 && viewsOK && rts != nil {
+	if rts := x.resultTypes(); (c >= 9 || x.o.Profile == "stream" && c >= 7) && viewsOK && rts != nil {
 		t := rts[x.r.Intn(len(rts))]
 		if x.chance(1, 4) {
 			a = &spec.Attr{Type: &spec.Type{Kind: spec.Array, Collection: true, Elem: &spec.Attr{Type: &spec.Type{Kind: spec.Ref, Ref: t.Name}}}}
